@@ -143,10 +143,21 @@ func runLoopScenario(t *testing.T, sc *loopScenario) *loopRun {
 				break
 			}
 			switch op.Kind {
-			case "connect", "connectfail", "connectbroken":
+			case "connect", "connectfail", "connectbroken", "connectsendfail":
 				cli, srv := newVPair()
 				peers = append(peers, cli)
 				srvEnds = append(srvEnds, srv)
+				if op.Kind == "connectsendfail" {
+					// a transport that loses ONE reply (the first Send fails) and works on: the server keeps
+					// running, and must still be stopped / finished like any other
+					srv.st.sendErr = func(n int32) error {
+						if n == 1 {
+							return errors.New("send failed")
+						}
+						return nil
+					}
+					cli.Send([]byte(`{"jsonrpc":"2.0","id":1,"method":"m"}`))
+				}
 				if op.Kind == "connectbroken" {
 					// a transport that breaks: the server's Recv number 1+Arg fails with an error that is
 					// neither end-of-input nor a closed-connection error, so its exit status carries it
@@ -607,7 +618,7 @@ func TestC20(t *testing.T) {
 		logs = append(logs, r.Log)
 		ins = append(ins, in)
 	}
-	kinds := []string{"connect", "connect", "connectbroken", "connectfail", "slownotes", "opengate", "clientclose", "cancel", "call", "acceptfail", "acceptclosing", "connect+closing", "acceptfaileof", "acceptfaileofbare", "acceptclosingwrapped"}
+	kinds := []string{"connect", "connect", "connectbroken", "connectsendfail", "connectfail", "slownotes", "opengate", "clientclose", "cancel", "call", "acceptfail", "acceptclosing", "connect+closing", "acceptfaileof", "acceptfaileofbare", "acceptclosingwrapped"}
 	for i := 0; i < pick(400, 4000); i++ {
 		sc := &loopScenario{}
 		n := 1 + rng.Intn(7)
@@ -652,6 +663,9 @@ func TestC20(t *testing.T) {
 		{Ops: []loopOp{{Kind: "connect"}, {Kind: "slownotes", Arg: 0}, {Kind: "clientclose", Arg: 0}, {Kind: "opengate"}, {Kind: "acceptclosing"}}},
 		{Ops: []loopOp{{Kind: "connect"}, {Kind: "connect"}, {Kind: "slownotes", Arg: 1}, {Kind: "cancel"}, {Kind: "opengate"}}},
 		{Ops: []loopOp{{Kind: "connect"}, {Kind: "slownotes", Arg: 0}, {Kind: "acceptclosing"}}},
+		// a connection that lost one reply in transport is stopped and finished like the others
+		{Ops: []loopOp{{Kind: "connectsendfail"}, {Kind: "call", Arg: 0}, {Kind: "cancel"}}},
+		{Ops: []loopOp{{Kind: "connectsendfail"}, {Kind: "connect"}, {Kind: "clientclose", Arg: 0}, {Kind: "acceptclosing"}}},
 		// servers that exit with an error status are finished like the others
 		{Ops: []loopOp{{Kind: "connectbroken", Arg: 0}, {Kind: "connect"}, {Kind: "acceptclosing"}}},
 		{Ops: []loopOp{{Kind: "connect"}, {Kind: "connectbroken", Arg: 1}, {Kind: "cancel"}}},
